@@ -107,6 +107,17 @@ def run(rep, tier, seed):
     neg = tlc.run("MC_G04", "MC_G04_lag.cfg", workers=4, timeout=3000)
     if not any("Coherent" in v for v in neg.violations):
         rep.fail("G04/model/negative-control", "the stale-parse deviation (ReloadLag = TRUE) was NOT rejected by the invariant Coherent", {})
+    # liveness of the watcher (MechWatcher): once the files stop changing the registry comes to describe the disk - under weak fairness
+    # of the reload thread; the stale-parse deviation must VIOLATE it (the last event is consumed and the tree stays stale for ever)
+    tw = tlc.run("MC_G04w", "MC_G04w.cfg", workers=4, timeout=1800)
+    live_checked = "temporal propert" in open(tw.log, errors="replace").read().lower()
+    if tw.violations or not tw.ok or not live_checked:
+        rep.fail("G04/model/watcher-liveness", "MechWatcher: EventuallyUpToDate / NoLostUpdate not established by TLC: " + "; ".join(tw.errors[:2]) + ("" if live_checked else " (no temporal checking in the log)"), {"log": tw.log})
+    twl = tlc.run("MC_G04w", "MC_G04w_lag.cfg", workers=4, timeout=1800)
+    if not any("EventuallyUpToDate" in v for v in twl.violations):
+        rep.fail("G04/model/watcher-liveness-negative-control", "the stale-parse deviation did NOT violate EventuallyUpToDate", {"log": twl.log})
+    rep.cov["watcher_liveness"] = {"states": tw.generated, "distinct": tw.distinct, "temporal_checking_ran": live_checked,
+                                   "deviation_violates_EventuallyUpToDate": bool(twl.violations)}
     # unbounded: the TLAPS proof that the registry invariants are inductive for ANY set of paths and texts, and that the restated
     # actions equal the effect functions used here (checked by tlapm on every run)
     ok, nobl, txt = tlc.tlapm("MechSourcesProof", ["MechSources"], timeout=900, threads=6)
